@@ -20,6 +20,8 @@ pub struct MDef {
     pub name: String,
     /// the Python function name (differs from `name` for `@pytest.fixture(name=...)`)
     pub func: String,
+    /// defined in a class body: a namespace of its own, so a same-named module-level function is not rebound by it
+    pub in_class: bool,
     pub scope: u8,
     pub autouse: bool,
     pub deps: Vec<String>,
@@ -84,6 +86,7 @@ impl<'a> Model<'a> {
                     line: *line,
                     name: name.clone(),
                     func: fx.func.clone(),
+                    in_class: fx.in_class,
                     scope: fx.scope,
                     autouse: fx.autouse,
                     deps: if fx.style == 2 { vec![] } else { fx.deps.clone() },
@@ -312,8 +315,9 @@ impl<'a> Model<'a> {
                 return Expect { accept: [best].into_iter().collect(), via: Via::SameFile, none_ok: false };
             }
             // ... unless the earlier definition is a DIFFERENT function that merely carries the same fixture name
-            // (`@pytest.fixture(name="client") def client_override(client)` after `def client()`): that one is alive
-            if let Some(prev) = self.defs_in(file, name).into_iter().filter(|i| self.defs[*i].line < self.defs[best].line && self.defs[*i].func != self.defs[best].func).max_by_key(|i| self.defs[*i].line) {
+            // (`@pytest.fixture(name="client") def client_override(client)` after `def client()`), or is bound in another
+            // namespace (module level vs the body of a test class): that one is alive
+            if let Some(prev) = self.defs_in(file, name).into_iter().filter(|i| self.defs[*i].line < self.defs[best].line && (&self.defs[*i].func, self.defs[*i].in_class) != (&self.defs[best].func, self.defs[best].in_class)).max_by_key(|i| self.defs[*i].line) {
                 return Expect { accept: [prev].into_iter().collect(), via: Via::SameFile, none_ok: false };
             }
         }
